@@ -41,7 +41,23 @@ fn born(ty: u8, id: u64) {
     });
 }
 
+thread_local! {
+    /// armed destructor: the next drop of this (type, id) panics after it was recorded
+    pub static BOMB: std::cell::Cell<Option<(u8, u64)>> = const { std::cell::Cell::new(None) };
+}
+
+pub struct BombPayload;
+
 fn died(ty: u8, id: u64, pattern_ok: bool) {
+    died_record(ty, id, pattern_ok);
+    let armed = BOMB.try_with(|b| b.get()).ok().flatten();
+    if armed == Some((ty, id)) && !std::thread::panicking() {
+        let _ = BOMB.try_with(|b| b.set(None));
+        std::panic::panic_any(BombPayload);
+    }
+}
+
+fn died_record(ty: u8, id: u64, pattern_ok: bool) {
     // never panic in a destructor: record
     let _ = TRACK.try_with(|t| {
         if let Ok(mut t) = t.try_borrow_mut() {
